@@ -239,3 +239,18 @@ package parser
 //@ func EnableDebug
 //@ props C15
 //@ modifies yyDebug
+
+// ---------------------------------------------------------------------------
+// C03: the operator table of the language, as the property statement gives it (loosest to tightest). The LR table
+// lemma (one obligation per operator production and continuing token, over every LR state in which the production is
+// reducible) is generated from these rows and the constant tables of parser.go; the rows are NOT read from the
+// %left/%right declarations of parser.go.y.
+//@ optable 1 right: '?' NILCOALESCE
+//@ optable 2 left: OROR
+//@ optable 3 left: ANDAND
+//@ optable 4 left: EQEQ NEQ '<' LE '>' GE
+//@ optable 5 left: '+' '-' '|'
+//@ optable 6 left: '*' '/' '%' SHIFTLEFT SHIFTRIGHT '&'
+//@ optable 7 left: IN
+//@ optable 8 unary: '-' '!' '^' '&' '*'
+//@ optable 9 postfix: '(' '[' '.'
